@@ -172,7 +172,7 @@ def r64(ctx, rep, sinks=None, rule="R6.4"):
         if ev.lam is not None:
             continue
         names = [t.name for t in ev.sink_targets()]
-        if not any(n in ("UserFn", "UserConFn") for n in names):
+        if not any(n in ("UserFn", "UserConFn", "VecFunNL.fun", "PreparedConstraint(nonlinear)") for n in names):
             continue
         e = common.point_arg(ev)
         if e is None:
